@@ -384,6 +384,7 @@ def _(c):
     c.ensures('forall(lambda m: implies(0 <= m and m < len(result), result[m] == array[len(array) - len(result) + m]))', label='same-points-in-order')
     c.ensures('forall(lambda k: implies(0 <= k and k < len(array) - len(result), array[k] < value))', label='dropped-points-are-before-the-division-time')
     c.ensures('implies(len(result) > 0, result[0] >= value)', label='first-kept-point-is-not-before-the-division-time')
+    c.ensures('forall(lambda k: implies(0 <= k and k < len(array) and array[k] >= value, len(result) >= len(array) - k))', label='every-point-from-the-division-time-on-is-kept')
     c.ensures('implies(len(result) == 0, forall(lambda k: implies(0 <= k and k < len(array), array[k] < value)))', label='empty-only-if-every-point-is-earlier')
     c.modifies()
 
@@ -392,3 +393,34 @@ def _(c):
 # inlined) was tried and took more than 45 minutes of path replay, so it was withdrawn.  Its loop body consists of the calls proved
 # here: interface.partition (dispatch), truncate_timepoints_less_than, simulate_daughter_cells (links, list alignment), and
 # simulate_cell_list for the roots.
+
+
+# ------------------------------------------------------------------------------------------------ one GENERIC pass of the work list
+# The work list starts with one arbitrary queued cell (final state of some simulated cell: a grid time, positive volume, a state of
+# the right length, any divided / dead code) and no root cells; the loop is followed for that one entry and cut afterwards.  What is
+# proved are the obligations met in that pass: the preconditions of interface.partition, truncate_timepoints_less_than and
+# simulate_daughter_cells AT THEIR CALL SITES (a mother that already sits at the final time must not be divided again: her daughters
+# would get a one-point grid), for every queued cell whatever.
+@fuc('lineage', 'LineageSSASimulator.SimulateCellLineage', props=['C19'], variant='one-generic-pass-of-the-work-list')
+def _(c):
+    c.array('timepoints', ndim=1, elem='Real')
+    c.hints['initial_cell_states'] = dict(value=lambda ex: [])
+    c.hints['self.lineage'] = dict(value=lambda ex: ex.symbolic_obj(ex.program.find_class('Lineage'), 'the_lineage', exact=True))
+    c.hints['self.old_cell_states'] = dict(value=lambda ex: _objs(ex, 'LineageVolumeCellState', 'queued_state', 1))
+    c.hints['self.old_schnitzes'] = dict(value=lambda ex: _objs(ex, 'Schnitz', 'queued_schnitz', 1))
+    c.hints['queued_state0.state_set'] = dict(value=1)
+    c.hints['self.interface.division_event_volume_splitters'] = dict(value=lambda ex: _splitters(ex, 'event', NE))
+    c.hints['self.interface.division_rule_volume_splitters'] = dict(value=lambda ex: _splitters(ex, 'rule', NR))
+    c.requires(WF_SIM)
+    c.requires('self.interface.num_division_rules == %d and self.interface.num_division_events == %d' % (NR, NE))
+    c.requires('len(timepoints) >= 2')
+    c.requires('forall(lambda i, j: implies(0 <= i and i < j and j < len(timepoints), timepoints[i] < timepoints[j]))')       # a strictly increasing grid
+    Q = 'self.old_cell_states[0]'
+    c.requires('%s.volume > 0 and len(%s.state) == self.num_species and %s.initial_time <= %s.time' % (Q, Q, Q, Q))
+    c.requires('0 <= ifun("J", self) and ifun("J", self) < len(timepoints) and %s.time == timepoints[ifun("J", self)]' % Q)     # a queued cell ends at a grid time
+    c.requires('-1 <= %s.divided and %s.divided < %d and -1 <= %s.dead' % (Q, Q, NR + NE, Q))
+    c.assume('forall(lambda k: U(k) > 0)', 'uniform_rv() == 0 excluded')
+    c.loop(1).cut_after(1)
+    c.raises('ValueError')
+    c.raises('RuntimeError')
+    c.note('one generic pass: the obligations are the call-site preconditions met while one arbitrary queued cell is processed')
